@@ -40,6 +40,9 @@ def plan(tier, seed):
             if tier == "quick" and combo not in (0, 3, 5, 6):
                 continue
             items.append(dict(date=str(d), ost=bool(combo & 1), kinder=bool(combo & 2), jung=bool(combo & 4), seed=seed, tier=tier))
+        # the care-insurance discounts depend on the number of children: one sweep per count
+        for nk in ((1, 2, 4, 5, 6, 10) if tier == "thorough" else (2, 5, 9)):
+            items.append(dict(date=str(d), ost=False, kinder=True, jung=False, n_children=nk, seed=seed, tier=tier))
     return items
 
 
@@ -92,6 +95,14 @@ def run_item(item):
     wages = np.array(sorted({w for w in wages if w >= 0}))
     res["boundaries"] = bounds
     df = popgen.replicate_with_wages(base, wages)
+    if item.get("n_children") is not None:
+        # supplied as data column (it is a computed column where it exists; C05 covers the equivalence)
+        nodes_now = set(env.graph(functions, list(df.columns), ["ges_pflegev_beitr_arbeitnehmer_m"])[0])
+        if "ges_pflegev_anz_kinder_bis_24" not in nodes_now:
+            res["skipped"] = "number of children does not enter the contribution at this date"
+            return res
+        df["ges_pflegev_anz_kinder_bis_24"] = int(item["n_children"])
+        res["combo"] = (*res["combo"], int(item["n_children"]))
     targets = ["geringfügig_beschäftigt", "in_gleitzone", "regulär_beschäftigt"]
     for br in BRANCHES:
         targets += [f"{br}_beitr_arbeitnehmer_m", f"{br}_beitr_arbeitgeber_m", f"_{br}_beitr_midijob_sum_arbeitnehmer_arbeitgeber_m"]
@@ -180,12 +191,13 @@ def summarize(results, tier, seed):
     cov = dict(
         evaluations=sum(r["persons"] for r in ok),
         distinct_nontrivial=len({(r["date"], tuple(r["combo"])) for r in ok if r["persons"]}),
+        sweeps_with_child_count=len([r for r in ok if len(r["combo"]) == 4]),
         rule="evaluation = one simulated employee of a wage sweep; distinct non-trivial = (date, east/west, children, age class) "
              "sweeps containing marginal, transition-zone, regular and above-ceiling wages",
         sweeps=len(ok), condition_evaluations=cond,
         persons_in_transition_zone=sum(r["zone_persons"] for r in ok), persons_marginally_employed=sum(r["marginal_persons"] for r in ok),
         persons_above_ceiling=sum(r["above_ceiling_persons"] for r in ok),
-        boundaries_by_date={r["date"]: r["boundaries"] for r in ok if not r["combo"][0]},
+        boundaries_by_date={r["date"]: r["boundaries"] for r in ok if not r["combo"][0] and r["boundaries"]},
         dates=sorted({r["date"] for r in ok}),
         samples=[r["sample"] for r in ok[:2] if "sample" in r],
     )
